@@ -21,6 +21,8 @@ func init() {
 			"(D2) 'no parameter value makes the request crash': the request integers limit/offset are stored into searchParams only behind sign and overflow guards, no other writer stores possibly negative values, and every slice expression in search/searchMemory/searchFiles/readEntries with a non-constant bound is dominated by a length guard on the same slice; " +
 			"(D3) one funnel: the ring buffer is pushed only by Add, the file is opened for writing only by flushToFile in append mode, and the buffer is encoded and cleared in one bufferLock critical section. " +
 			"(D5, cont.) while positioning the file reader for a cursor one record is read and discarded only when the seek landed on the cursor's own record (a cursor newer than all file records, i.e. an entry still in memory, skips nothing); (D6) the address mutator is applied only to copies: no value passed to an aghnet.IPMutFunc in the query log aliases the IP field of an entry, so recorded entries keep the client they were recorded with. " +
+			"(D7) the per-search client cache is keyed by exactly the (ClientID, address) pair the client lookup depends on. " +
+			"(D8) the quick match looks at the undecoded line of a file record only through whole field values (readJSONValue), never through substring tests on the raw line. " +
 			"Not decided: exactly-once / newest-first over memory+file+rotated file, cursor and offset partitioning, search-term semantics (history- and value-level).",
 		RuleText: "Key sets are computed from go/types struct tags following encoding/json naming, and from the typed AST of the decoder (map literal keys, switch cases, == comparisons).",
 		Assumptions: []string{
@@ -32,6 +34,8 @@ func init() {
 }
 
 func runC07(c *Ctx) {
+	c07QuickMatchFields(c)
+	clientCacheKeyComplete(c, "C07-D7")
 	c07Codec(c)
 	c07Ints(c)
 	c07Funnel(c)
@@ -835,4 +839,81 @@ func c07RecordedImmutable(c *Ctx) {
 	r.Check(n > 0 && len(bad) == 0, "C07-D6", "anonymiser-on-copies-only", "-",
 		fmt.Sprintf("the %d applications of the address mutator in the query log work on copies; recorded entries keep the client they were recorded with", n),
 		"the address mutator is applied to the stored address of an entry: entries still in memory (and then the file) lose the client they were recorded with", bad...)
+}
+
+// c07QuickMatchFields: D8 — the quick match decides on the undecoded line of a
+// record in the file whether the full match needs to run; records in memory do
+// not go through it.  The two views of the log agree only if the quick match
+// looks at the line the way the decoder does: through whole field values taken
+// out with readJSONValue.  A substring test on the raw line (a number's prefix
+// is a prefix of longer numbers, a key can occur inside a value) drops or keeps
+// other records than the decoded match — for file records only.
+func c07QuickMatchFields(c *Ctx) {
+	p, r := c.P, c.R
+	fn := p.Fn("(*querylog.searchCriterion).quickMatch")
+	if fn == nil {
+		r.Undecided("C07-D8", "quickMatch", "-", "anchor not found")
+		return
+	}
+	var line *ssa.Parameter
+	for _, prm := range fn.Params {
+		if prm.Name() == "line" {
+			line = prm
+		}
+	}
+	if line == nil {
+		for _, prm := range fn.Params {
+			if bt, ok := prm.Type().Underlying().(*types.Basic); ok && bt.Kind() == types.String {
+				line = prm
+			}
+		}
+	}
+	if line == nil {
+		r.Undecided("C07-D8", "quickMatch-line", p.FnPos(fn), "the raw line parameter was not found")
+		return
+	}
+	n := 0
+	var bad []string
+	var scan func(f *ssa.Function, isLine func(ssa.Value) bool, depth int)
+	scan = func(f *ssa.Function, isLine func(ssa.Value) bool, depth int) {
+		for _, call := range core.Calls(f) {
+			for i, a := range call.Common.Args {
+				if !isLine(core.ResolveCellLoad(a)) {
+					continue
+				}
+				n++
+				switch {
+				case call.Key == "querylog.readJSONValue":
+				default:
+					// a helper of the package that is handed the line: same obligation inside it
+					if h := core.Callee(call.Common); h != nil && core.PkgOf(h) == "querylog" && len(h.Blocks) > 0 && depth < 2 && i < len(h.Params) {
+						prm := h.Params[i]
+						scan(h, func(v ssa.Value) bool { return v == ssa.Value(prm) }, depth+1)
+						continue
+					}
+					bad = append(bad, fmt.Sprintf("%s: the raw line is handed to %s", p.InstrPos(call.Instr), call.Key))
+				}
+			}
+		}
+		// slicing or indexing the raw line is a substring test too
+		for _, b := range f.Blocks {
+			for _, in := range b.Instrs {
+				switch x := in.(type) {
+				case *ssa.Slice:
+					if isLine(core.ResolveCellLoad(x.X)) {
+						bad = append(bad, p.InstrPos(in)+": the raw line is sliced")
+					}
+				case *ssa.Lookup:
+					if isLine(core.ResolveCellLoad(x.X)) {
+						bad = append(bad, p.InstrPos(in)+": the raw line is indexed")
+					}
+				}
+			}
+		}
+	}
+	scan(fn, func(v ssa.Value) bool { return v == ssa.Value(line) }, 0)
+	sort.Strings(bad)
+	r.Check(n > 0 && len(bad) == 0, "C07-D8", "quick-match-reads-whole-field-values", p.FnPos(fn),
+		"the quick match looks at the undecoded line only through readJSONValue (whole field values)",
+		"the quick match tests the undecoded line otherwise than through whole field values: records in the files are then kept or dropped differently from the same records in memory", bad...)
 }
